@@ -35,8 +35,17 @@ PUBLIC = {"pub_s": "PUBLIC-abc", "pub_i": 1717171, "pub_l": ["PUBLIST", 3], "pub
 SENSITIVE = list(ALPH)
 
 
-def fill(schema):
+def fill(schema, sensitive=True):
     import cincoconfig as cc
+    if not sensitive:
+        schema.pub_s = cc.StringField()
+        schema.pub_i = cc.IntField()
+        schema.pub_l = cc.ListField()
+        schema.pub_x = cc.SecureField(method="xor", sensitive=False)
+        schema.pub_v = cc.VirtualField(lambda cfg: "PUBVIRT-visible")
+        return
+    schema.sec_v = cc.VirtualField(lambda cfg: "VIRTSECRET-zz" if cfg.sec_s else None, sensitive=True)
+    schema.pub_v = cc.VirtualField(lambda cfg: "PUBVIRT-visible")
     schema.sec_s = cc.StringField(sensitive=True)
     schema.pub_s = cc.StringField()
     schema.sec_i = cc.IntField(sensitive=True)
@@ -48,27 +57,37 @@ def fill(schema):
     schema.sec_c = cc.ChallengeField("md5", sensitive=True)
 
 
-def build():
+def build(only_at=None):
+    """only_at: the single position whose schema declares sensitive fields (None: every position does)"""
     import cincoconfig as cc
+    sens = lambda pos: only_at is None or only_at == pos  # noqa
     s = cc.Schema()
-    fill(s)
-    fill(s.sub)
-    fill(s.sub.deep)
+    fill(s, sens("root"))
+    fill(s.sub, sens("sub"))
+    fill(s.sub.deep, sens("sub.deep"))
     ts = cc.Schema()
-    fill(ts)
+    fill(ts, sens("t") or sens("ts[]"))
     CT = cc.make_type(ts, "CT10")
-    s.t = CT
+    if only_at != "ts[]":
+        s.t = CT
+    else:
+        tp = cc.Schema(); fill(tp, False)
+        s.t = cc.make_type(tp, "CT10plain")
     item = cc.Schema()
-    fill(item)
-    fill(item.inner)
+    fill(item, sens("items[]"))
+    fill(item.inner, sens("items[].inner"))
     s.items = cc.ListField(item)
-    s.ts = cc.ListField(CT)
+    if only_at == "t":
+        tp = cc.Schema(); fill(tp, False)
+        s.ts = cc.ListField(cc.make_type(tp, "CT10plain2"))
+    else:
+        s.ts = cc.ListField(CT)
     return s
 
 
 def node_tree(vals, with_inner=False):
     t = {}
-    for k, v in vals.items():
+    for k, v in (vals or {}).items():
         if v is not None:
             t[k] = v
     t.update(PUBLIC)
@@ -114,6 +133,8 @@ def jobs(tier):
         out.append({"name": "all-positions/%02d" % c, "combos": [list(x) for x in combos[c::n]], "where": "all", "formats": fmts})
     for pos in POSITIONS:
         out.append({"name": "only/%s" % pos, "combos": [[a[-1] for a in ALPH.values()]], "where": pos, "formats": fmts})
+        # schemas that declare sensitive fields *only* at this position (nothing sensitive anywhere else in the tree)
+        out.append({"name": "schema-only/%s" % pos, "combos": [[a[-1] for a in ALPH.values()]], "where": pos, "formats": fmts, "schema_only": pos})
     return out
 
 
@@ -122,13 +143,13 @@ def run_job(job, ctx):
     if single:
         job = dict(single["jobparams_full"]); job["only"] = single["only"]
     only = job.get("only")
-    schema = build()
+    schema = build(job.get("schema_only"))
     keypath = ctx.tmp + "/c10.key"
     open(keypath, "wb").write(bytes(range(32)))
     for ci, combo in enumerate(job["combos"]):
         vals = dict(zip(ALPH, combo))
         empty = {k: None for k in ALPH}
-        vals_at = {p: (vals if job["where"] in ("all", p) else empty) for p in POSITIONS}
+        vals_at = {p: (vals if job["where"] in ("all", p) else (empty if not job.get("schema_only") else {})) for p in POSITIONS}
         for mask in MASKS:
             if only is not None and only != [ci, mask]:
                 continue
@@ -162,9 +183,18 @@ def check(ctx, job, schema, keypath, vals_at, mask, key):
 
     def bad(what, msg):
         ctx.violation("C10|%s|mask=%s|%s" % (job["where"], mtag, what), "values %s at %s, mask %r: %s" % (vals_at[job["where"] if job["where"] != "all" else "root"], job["where"], mask, msg), case)
+    for virtual in (False, True):
+        _check_render(ctx, job, cfg, vals_at, mask, key, virtual, bad)
+    ctx.traces += 1
+
+
+def _check_render(ctx, job, cfg, vals_at, mask, key, virtual, bad):
+    import cincoconfig as cc
+    mtag = "none" if mask is None else ("empty" if mask == "" else ("1char" if len(mask) == 1 else "multi"))
+    vtag = "|virtual" if virtual else ""
     try:
-        plain = cfg.to_tree()
-        masked = cfg.to_tree(sensitive_mask=mask)
+        plain = cfg.to_tree(virtual=virtual)
+        masked = cfg.to_tree(virtual=virtual, sensitive_mask=mask)
     except Exception as exc:  # noqa
         ctx.case((repr(vals_at), repr(mask), "to_tree"), "to_tree:raises", True)
         bad("to_tree-raises", "to_tree raised %r" % (exc,))
@@ -176,31 +206,37 @@ def check(ctx, job, schema, keypath, vals_at, mask, key):
         for k in list(pnode):
             if isinstance(pnode[k], dict) and k in ("sub", "deep", "inner", "t") or k in ("items", "ts"):
                 continue
-            if k in SENSITIVE and mask is not None:
+            if (k in SENSITIVE or k == "sec_v") and mask is not None:
                 value = getattr(cnode, k)
                 if not value:
                     continue            # falsy sensitive values: rendering not judged
                 want = mask * len(str(value)) if len(mask) == 1 else mask
                 if mnode.get(k) != want:
-                    bad("not-masked|%s|%s" % (pos, k), "%s.%s is rendered as %s, expected %r" % (pos, k, V.show(mnode.get(k), 60), want))
+                    bad("not-masked%s|%s|%s" % (vtag, pos, k), "%s.%s is rendered as %s, expected %r" % (pos, k, V.show(mnode.get(k), 60), want))
             else:
                 if V.canon(mnode.get(k)) != V.canon(pnode[k]):
                     bad("non-sensitive-altered|%s|%s" % (pos, k), "%s.%s is rendered as %s with the mask and %s without" % (pos, k, V.show(mnode.get(k), 40), V.show(pnode[k], 40)))
         if set(mnode) != set(pnode):
             bad("keys-differ|%s" % pos, "masked rendering has keys %s, plain %s" % (sorted(set(mnode) ^ set(pnode)), ""))
     ctx.transitions += 1
-    ctx.case((repr(vals_at), repr(mask), "to_tree"), "to_tree:%s" % mtag, nontrivial)
+    ctx.case((repr(vals_at), repr(mask), "to_tree", virtual), "to_tree:%s%s" % (mtag, vtag), nontrivial)
     # ---- documents
     secrets = sorted({d for p in vals_at.values() for k, v in p.items() for d in distinctive(v)})
+    if virtual and any(p.get("sec_s") for p in vals_at.values()):
+        secrets.append("VIRTSECRET-zz")
+    if virtual:
+        for (pos, mnode) in nodes(masked, True):
+            if "pub_v" not in mnode or mnode["pub_v"] != "PUBVIRT-visible":
+                bad("virtual-missing|%s" % pos, "to_tree(virtual=True) lacks the non-sensitive virtual field at %s" % pos)
     for fmt in job["formats"]:
         ctx.transitions += 1
         try:
-            data = cfg.dumps(fmt, sensitive_mask=mask)
+            data = cfg.dumps(fmt, virtual=virtual, sensitive_mask=mask)
             back = cc.ConfigFormat.get(fmt).loads(None, data)
         except Exception as exc:  # noqa
             bad("dumps-raises|" + fmt, "dumps(%s) raised %r" % (fmt, exc))
             continue
-        ctx.case((repr(vals_at), repr(mask), fmt), "dumps:%s:%s" % (fmt, mtag), nontrivial)
+        ctx.case((repr(vals_at), repr(mask), fmt, virtual), "dumps:%s:%s" % (fmt, mtag), nontrivial)
         if mask is not None:
             for sct in secrets:
                 if sct.encode() in data or json.dumps(sct).encode()[1:-1] in data:
@@ -210,4 +246,3 @@ def check(ctx, job, schema, keypath, vals_at, mask, key):
             bad("document-differs|" + fmt, "the %s document does not decode to to_tree(sensitive_mask=%r)" % (fmt, mask))
     if mask is None and V.canon(masked) != V.canon(plain):
         bad("no-mask-altered", "to_tree(sensitive_mask=None) differs from to_tree()")
-    ctx.traces += 1
